@@ -90,6 +90,8 @@ theorem inv_step (s : St) (a : Act) (hi : Inv s) (he : enabled s a = true) (hd :
     simp only [step]
     refine ⟨Or.inl hd, hi.reg⟩
   | acquireErr p => simp [disciplined] at hd
+  | startFail p => simpa [step] using hi
+  | acquireFail p => simpa [step] using hi
   | start p =>
     cases hl : s.lockFile
     · have hh := holders_nil_of_unlocked hi hl
